@@ -77,9 +77,11 @@ VARIANTS = [
     V("constant preprocess layer name", ("C14",), "R-TOKEN", "aggregations.py", '        token="groupby-argreduce-preprocess",', '        name="groupby-argreduce-preprocess",', must_mention="argreduce_preprocess"),
     V("__dask_tokenize__ drops min_count", ("C14", "C09"), "R-TOKEN", "aggregations.py", '            self.min_count,\n', '', must_mention="min_count"),
     V("cohort subset named without tokenize", ("C14", "C09"), "R-TOKEN", "core.py", 'name = "groupby-cohort-" + tokenize(array, index)', 'name = "groupby-cohort-subset"', must_mention="subset_to_blocks"),
+    V("cohort subset token without the reindexer", ("C14", "C09"), "R-TOKEN", "core.py", 'tokenize(array, index, reindexer)', 'tokenize(array, index)', must_mention="reindexer"),
     V("twin: more ingredients in the token", ("C14",), "", "core.py", 'tokenize(array, by, agg, expected_groups, axis, method, sort)', 'tokenize(array, by, agg, expected_groups, axis, method, sort, engine, reindex)', expect="silent"),
     V("level dropped from intermediate name", ("C03",), "R-KEYS", "dask_array_ops.py", 'newname = name + f"-{block_index}-partial-{level}"', 'newname = name + f"-{block_index}-partial"', must_mention="_tree_reduce"),
     V("block_index dropped from intermediate name", ("C03", "C09"), "R-KEYS", "dask_array_ops.py", 'newname = name + f"-{block_index}-partial-{level}"', 'newname = name + f"-partial-{level}"', must_mention="_tree_reduce"),
+    V("depth from positionally zipped split_every", ("C03", "C09"), "R-AXISKEY", "dask_array_ops.py", '    for i, n in enumerate(numblocks):\n        if i in split_every and split_every[i] != 1:\n            depth = int(builtins.max(depth, math.ceil(math.log(n, split_every[i]))))', '    for n, every in zip(numblocks, split_every.values()):\n        if every != 1:\n            depth = int(builtins.max(depth, math.ceil(math.log(n, every))))', must_mention="_tree_reduce"),
     V("constant block_index for cohorts", ("C03", "C09"), "R-KEYS", "core.py", '                    block_index=icohort,', '                    block_index=0,', must_mention="dask_groupby_agg"),
     V("_unique replaced by pd.unique in _normalize_indexes", ("C03", "C06"), "R-ORDER", "core.py", '        i = _unique(idx).squeeze()', '        i = pd.unique(idx).squeeze()', must_mention="_normalize_indexes"),
     V("cohort blocks from the row label only", ("C09", "C02"), "R-COVER", "core.py", '        allchunks = (label_chunks[member].tolist() for member in cohort)\n        chunk = tuple(set(itertools.chain(*allchunks)))', '        chunk = tuple(label_chunks[present_labels[rowidx].item()].tolist())', must_mention="find_group_cohorts"),
